@@ -136,6 +136,138 @@ CHECKS = {
         design_ref="DESIGN.md 4 (C07)",
         note="Trusted: TLC, tracing SSM with scripted std/mean/RMS values; their numerical values on real models are C08. Estimates whose exact value leaves 32 bits are dropped and counted.",
     ),
+    "C10": dict(
+        engine="exact-replay",
+        technique="TLC exact evaluation of JetPoly.tla (solution derivatives by series recursion, one Increment action per coefficient, cross-checked against symbolic total differentiation) and replay of every polynomial program into the five Taylor-coefficient routines",
+        text=(
+            "JetPoly.tla represents polynomial vector fields as monomial tables and defines the derivatives of the exact solution "
+            "twice (Cauchy-product series recursion stepped by an Increment action; repeated application of the total-derivative "
+            "operator); TLC checks that both agree in every state and that all lifts of u^(m) - f vanish along the solution, and "
+            "exports the integers. Each program is built as a real JAX function and run through all five routines (flat and "
+            "nested-pytree states, autonomous and time-dependent fields, orders 1 and 2, implicit forms for the residual routine)."
+        ),
+        design_ref="DESIGN.md 3.3, 4 (C10)",
+        note="Trusted: TLC range-checked arithmetic; polynomial fields only (degree <= 2 in u, <= 3 in t, d <= 3, k <= 7); 1e-9 relative.",
+    ),
+    "C11": dict(
+        engine="exact-replay",
+        technique="TLC exact evaluation of JetPoly.tla (total time derivatives along a curve, Jacobian blocks, laws as invariants) and replay into jet_lift / residual constructors / the three linearisations",
+        text=(
+            "JetPoly.tla defines the l-th total time derivative of a polynomial right-hand side or residual along a curve with "
+            "given coefficients (series composition vs. symbolic D^l, Leibniz rule, index bookkeeping, admissible lift range) and "
+            "value / full / per-dimension / trace-averaged Jacobians and affine offsets of constraints; TLC checks the laws and "
+            "exports the values. Replayed into JetOde/JetResidual.jet_lift, jet_lift_max, residual_from_ode, residual_from_stack "
+            "and constraint_ode_ts0 / ts1 / constraint_residual.linearize of the dense, isotropic and block-diagonal models."
+        ),
+        design_ref="DESIGN.md 3.3, 4 (C11)",
+        note="Trusted as C10. Lift orders 0..5, differential order 0..2, Jacobians via jacobian_materialize; any exception counts as rejection of an inadmissible lift_by.",
+    ),
+    "C17": dict(
+        engine="exact-replay",
+        technique="TLC exact evaluation of Hutchinson.tla (per-probe estimates, mean over ALL sign tensors = exact blocks as invariant, key state machine) and replay with the Rademacher generator replaced by a full enumerator",
+        text=(
+            "Hutchinson.tla defines, for integer polynomial maps (n_in,d)->(n_out,d), the dense Jacobian, its per-dimension blocks, "
+            "its sum over dimensions and the forward/reverse per-probe estimates; TLC checks that the mean over all 2^(n d) sign "
+            "tensors equals the exact blocks, that trace = sum of blocks, and that no key is reused by the key machine (all call "
+            "sequences up to length 5). The real handlers are run with probdiffeq.backend.random.rademacher replaced by an "
+            "enumerator (num_probes = 2^(n d)) and compared exactly; key advance and input rejection are checked on the unpatched functions."
+        ),
+        design_ref="DESIGN.md 3.3, 4 (C17)",
+        note="Trusted: TLC, the enumerating replacement of rademacher; polynomial maps at integer points, n_in, n_out, d <= 4.",
+    ),
+    "C12": dict(
+        engine="exact-replay",
+        technique="TLC exact evaluation of MarkovSeqExact.tla (joint law of the backward Markov sequence, observed covariance, determinant, Mahalanobis form) and replay into both marginal-likelihood losses for the three factorisations",
+        text=(
+            "MarkovSeqExact.tla defines the joint mean and covariance of a Markov sequence given by an anchor marginal and a chain of "
+            "conditionals (with preconditioner scalings), the covariance of the observed Taylor coefficient plus per-time / "
+            "per-dimension noise, its determinant and the Mahalanobis form as exact rationals. loss_lml_timeseries (sum and "
+            "time-average) and loss_lml_terminal_values are evaluated on MarkovSequences built from the same integer pieces for the "
+            "dense, isotropic and block-diagonal models (noise-free initial states included) and compared with the exact log-density."
+        ),
+        design_ref="DESIGN.md 3.3, 4 (C12)",
+        note="Trusted: TLC arithmetic; harness embedding of structured pieces (law checked under C08); observed joint <= 4 x 4; 2-3 output times. The wiring of the posterior that the solvers hand to the loss is decided under C03.",
+    ),
+    "C13": dict(
+        engine="exact-replay",
+        technique="TLC exact evaluation of MarkovSeqExact.tla (+ IwpExact.tla for priors on a grid) and replay into MarkovSequence.sample with the normal generator replaced by a key-indexed table of prescribed draws",
+        text=(
+            "The smoothing means and the joint covariance of the Markov sequence are exact rationals from TLC. "
+            "MarkovSequence.sample is run with probdiffeq.backend.random.normal replaced by a table lookup keyed by the PRNG key "
+            "(the key tree is recomputed with random.split; every draw must use a distinct leaf): zero draws must give the "
+            "smoothing means, unit draws give the columns W of the affine map and W W^T must equal the joint covariance; shapes "
+            "are prepended and batch members distinct; prior samples via from_grid are held to the exact IWP joint law."
+        ),
+        design_ref="DESIGN.md 3.3, 4 (C13)",
+        note="Trusted as C12 plus the replacement of the normal generator in the harness process.",
+    ),
+    "C15": dict(
+        engine="scripted-loop",
+        technique="conformance of the same TLA+ specifications under execution modes: TLC behaviours of AdaptiveLoop.tla replayed under vmap/jit, TLC-validated operation logs compared jit vs eager, relational replays on real SSMs (pytree, permutation, jit, vmap)",
+        category="model_checking",
+        text=(
+            "There is no separate model: TLC-generated behaviours of AdaptiveLoop.tla are replayed through the real adaptive loop as "
+            "members of vmapped (and jit(vmap)) batches with different accept/reject scripts and each member must reproduce its own "
+            "behaviour; operation logs of the real solver code on the tracing SSM must be identical with and without jit and are "
+            "validated by TLC; real solves with nested dict / tuple / namedtuple / rank-3 states, permuted components, jit and vmap "
+            "(members needing 4 to 370 steps) are compared with the plain solve, including output structure and leading time axis."
+        ),
+        design_ref="DESIGN.md 4 (C15)",
+        note="Conformance sampling over execution modes, not a proof about JAX's transformations.",
+    ),
+    "C14": dict(
+        engine="exact-replay",
+        technique="TLC exact evaluation of KalmanExact.tla (one/two solver steps from textbook formulas; factorisation-agreement, MLE-split, smoothing and equivariance laws as invariants) and replay of TLC-generated scenarios into all three real SSMs",
+        text=(
+            "KalmanExact.tla defines one and two solver steps end to end over exact rationals (IWP prior, TS0 / dense, block-diagonal "
+            "and trace-averaged TS1 linearisations, all calibration modes, RTS smoothing by joint conditioning) and a second, "
+            "per-dimension block recursion; TLC checks on every instance that the dense recursion equals the embedded block "
+            "recursion where theory says so, that block-diagonal MLE scales are the per-dimension split, that decoupled TS1 equals "
+            "scalar solves and scalar-Jacobian isotropic equals dense. The same scenarios (and float scenarios with q = 1..4, 3-6 "
+            "steps) are run on the three real SSMs and the property's statements are checked across the implementations."
+        ),
+        design_ref="DESIGN.md 3.3, 4 (C14)",
+        note="Trusted: TLC arithmetic; exact instances fit 32 bits only for <= 2 steps and small q, d (others float-relational at 1e-9, dynamic modes with a conditioning-aware tolerance documented in harness/kalman.py).",
+    ),
+    "C18": dict(
+        engine="contracts",
+        technique="TLC model checking of Dt0.tla (abstract-magnitude transcription of both helpers, all class combinations; exact Hairer-Norsett-Wanner instances) and replay of class representatives / exact instances through ivpsolve.dt0 and dt0_adaptive",
+        text=(
+            "Dt0.tla part A transcribes both helpers branch by branch over an abstract magnitude domain (zero, tiny, small, normal, huge, "
+            "inf, nan with IEEE under/overflow rules) and TLC enumerates every class combination (16912 states) against 'positive and "
+            "finite'; part B defines the classical two-stage heuristic of Hairer-Norsett-Wanner II.4 over exact rationals for scalar "
+            "polynomial problems (laws: unit- and time-shift invariance). Class representatives (scalar, vector, pytree; zero / "
+            "non-zero fields) and the exact instances are replayed through the real helpers; each proposal starts a short adaptive solve."
+        ),
+        design_ref="DESIGN.md 3.4, 4 (C18)",
+        note="Trusted: the abstract arithmetic tables (replayed against float64 representatives), TLC. Vector-valued HNW instances are not exact (irrational norms). Remaining overflow findings for |u0| >= 1e154 are listed in known_findings.json.",
+    ),
+    "C19": dict(
+        engine="exact-replay",
+        technique="TLC model checking of GaussNewton.tla (explicit state machine of the iteration over exact rationals; affine exactness, range, truthful reporting, budget invariants) and iterate-by-iterate replay into lstsq_constrained_gauss_newton",
+        text=(
+            "GaussNewton.tla is an explicit state machine (x, fx, dx, iters) transcribing the Gauss-Newton iteration with its three-way "
+            "termination guard on squared norms; TLC checks on every state that affine constraints reach the Gaussian conditional mean "
+            "after one step with zero residual, that x - m stays in range(P J^T), that the returned statistics equal the last state and "
+            "that budget exhaustion is reported. The real routine runs with a recording loop injected through while_loop=; every "
+            "iterate, guard value, statistic and the filter update from taylor_point_maximum_a_posteriori are compared with the exact behaviour."
+        ),
+        design_ref="DESIGN.md 3.3, 4 (C19)",
+        note="Trusted: TLC arithmetic; D <= 4, budgets 1..4, tol 2^-10 / 2^-20, full-row-rank J L (rank-deficient solves not modelled); start x0 = mean as in both library call sites.",
+    ),
+    "C20": dict(
+        engine="contracts",
+        technique="TLC enumeration of InputContracts.tla (entry x field x corruption x factorisation -> raise/warn/accept with completeness invariants) and replay of every tuple against the public API",
+        text=(
+            "InputContracts.tla writes out the finite relation of public entry points, fields, single-field corruptions (wrong rank, "
+            "length, broadcastable length, scalar, tree structure, dtype, object type) and factorisations to the required outcome; TLC "
+            "checks completeness (every shape-carrying field covered for every applicable corruption and factorisation, the only "
+            "accepts are documented broadcasts, pairings warn with a remedy) and exports the 260 tuples. Each tuple is applied to an "
+            "otherwise valid call of the real API (construction or cheapest first use) and the observed raise / warning / finite result is compared."
+        ),
+        design_ref="DESIGN.md 3.4, 4 (C20)",
+        note="Single-field corruptions on one test problem (d = 2, 3 coefficients); exception types and messages are not compared, only raised / warned-with-remedy / accepted.",
+    ),
 }
 
 NOT_APPLICABLE = {
@@ -149,6 +281,7 @@ ENGINES = [
     dict(name="tlc", path="harness/tlc.py", kind_free_text="TLC runner: generated MC modules, counters, PrintT/ToJson behaviour export"),
     dict(name="exact-replay", path="harness/exact.py", kind_free_text="TLC as exact rational evaluator of the L2 specifications; instances replayed into the real numerical classes"),
     dict(name="tracing-ssm", path="harness/tracing.py", kind_free_text="fake AbstractTreeNormal/LatentCond/Prior/Linearization emitting ordered op events; real solver code runs on it; logs validated by TLC (harness/l1.py)"),
+    dict(name="contracts", path="harness/contracts.py", kind_free_text="finite contract relations / abstract-domain models enumerated by TLC and replayed against the public API (C18: harness/dt0.py, C20: harness/contracts.py)"),
     dict(name="scripted-loop", path="harness/l0.py", kind_free_text="AdaptiveLoop.tla behaviours replayed through the real adaptive loop with a scripted solver"),
 ]
 
